@@ -214,288 +214,288 @@ def Server.runIPServer : List Row := [
 
 /-- core/server, runSCIONServer -/
 def Server.runSCIONServer : List Row := [
-  (0, "func runSCIONServer(ctx context.Context, log *slog.Logger, mtrcs *scionServerMetrics, conn *net.UDPConn, localHostIface string, localHostPort int, dscp uint8, fetcher *scion.Fetcher, provider *ntske.Provider)"),  -- ?
-  (1, "defer conn.Close()"),  -- ?
-  (1, "localConnPort := conn.LocalAddr().(*net.UDPAddr).Port"),  -- ?
-  (1, "err := udp.EnableTimestamping(conn, localHostIface)"),  -- ?
-  (1, "if err != nil"),  -- ?
-  (1, "err = udp.SetDSCP(conn, dscp)"),  -- ?
-  (1, "if err != nil"),  -- ?
-  (1, "var txid uint32"),  -- ?
-  (1, "buf := make([]byte, scion.MTU)"),  -- ?
-  (1, "oob := make([]byte, udp.TimestampLen())"),  -- ?
-  (1, "var ( scionLayer slayers.SCION hbhLayer slayers.HopByHopExtnSkipper e2eLayer slayers.EndToEndExtn udpLayer slayers.UDP scmpLayer slayers.SCMP )"),  -- ?
-  (1, "scionLayer.RecyclePaths()"),  -- ?
-  (1, "udpLayer.SetNetworkLayerForChecksum(&scionLayer)"),  -- ?
-  (1, "scmpLayer.SetNetworkLayerForChecksum(&scionLayer)"),  -- ?
-  (1, "parser := gopacket.NewDecodingLayerParser( slayers.LayerTypeSCION, &scionLayer, &hbhLayer, &e2eLayer, &udpLayer, &scmpLayer)"),  -- ?
-  (1, "parser.IgnoreUnsupported = true"),  -- ?
-  (1, "decoded := make([]gopacket.LayerType, 4)"),  -- ?
-  (1, "buffer := gopacket.NewSerializeBuffer()"),  -- ?
-  (1, "options := gopacket.SerializeOptions{ ComputeChecksums: true, FixLengths: true}"),  -- ?
-  (1, "var authBuf, authMAC, authMockKey []byte"),  -- ?
-  (1, "if fetcher != nil"),  -- ?
-  (2, "authBuf = make([]byte, spao.MACBufferSize)"),  -- ?
-  (2, "authMAC = make([]byte, scion.PacketAuthMACLen)"),  -- ?
-  (2, "if scion.UseMockKeys()"),  -- ?
-  (3, "authMockKey = new(drkey.Key)[:]"),  -- ?
-  (1, "tsOpt := &slayers.EndToEndOption{}"),  -- ?
-  (1, "for"),  -- ?
-  (2, "buf = buf[:cap(buf)]"),  -- ?
-  (2, "oob = oob[:cap(oob)]"),  -- ?
-  (2, "n, oobn, flags, lastHop, err := conn.ReadMsgUDPAddrPort(buf, oob)"),  -- ?
-  (2, "if err != nil"),  -- ?
-  (3, "continue"),  -- ?
-  (2, "if flags != 0"),  -- ?
-  (3, "continue"),  -- ?
-  (2, "oob = oob[:oobn]"),  -- ?
-  (2, "rxt, err := udp.TimestampFromOOBData(oob)"),  -- ?
-  (2, "if err != nil"),  -- ?
-  (3, "oob = oob[:0]"),  -- ?
-  (3, "rxt = timebase.Now()"),  -- ?
-  (2, "buf = buf[:n]"),  -- ?
-  (2, "err = parser.DecodeLayers(buf, &decoded)"),  -- ?
-  (2, "if err != nil"),  -- ?
-  (3, "continue"),  -- ?
-  (2, "validType := len(decoded) >= 2 && (decoded[len(decoded)-1] == slayers.LayerTypeSCIONUDP || decoded[len(decoded)-1] == slayers.LayerTypeSCMP)"),  -- ?
-  (2, "if !validType"),  -- ?
-  (3, "continue"),  -- ?
-  (2, "if decoded[len(decoded)-1] == slayers.LayerTypeSCMP"),  -- ?
-  (3, "var payload gopacket.Payload"),  -- ?
-  (3, "switch scmpLayer.TypeCode.Type()"),  -- ?
-  (4, "case slayers.SCMPTypeEchoRequest"),  -- ?
-  (5, "payload = gopacket.Payload(scmpLayer.Payload)"),  -- ?
-  (5, "scmpLayer.TypeCode = slayers.CreateSCMPTypeCode( slayers.SCMPTypeEchoReply, 0)"),  -- ?
-  (4, "case slayers.SCMPTypeTracerouteRequest"),  -- ?
-  (5, "payload = gopacket.Payload(scmpLayer.Payload)"),  -- ?
-  (5, "scmpLayer.TypeCode = slayers.CreateSCMPTypeCode( slayers.SCMPTypeTracerouteReply, 0)"),  -- ?
-  (4, "default"),  -- ?
-  (5, "continue"),  -- ?
-  (3, "scionLayer.DstIA, scionLayer.SrcIA = scionLayer.SrcIA, scionLayer.DstIA"),  -- ?
-  (3, "scionLayer.DstAddrType, scionLayer.SrcAddrType = scionLayer.SrcAddrType, scionLayer.DstAddrType"),  -- ?
-  (3, "scionLayer.RawDstAddr, scionLayer.RawSrcAddr = scionLayer.RawSrcAddr, scionLayer.RawDstAddr"),  -- ?
-  (3, "scionLayer.Path, err = scionLayer.Path.Reverse()"),  -- ?
-  (3, "if err != nil"),  -- ?
-  (4, "continue"),  -- ?
-  (3, "scionLayer.PathType = scionLayer.Path.Type()"),  -- ?
-  (3, "scionLayer.NextHdr = slayers.L4SCMP"),  -- ?
-  (3, "err = buffer.Clear()"),  -- ?
-  (3, "if err != nil"),  -- ?
-  (4, "panic(err)"),  -- ?
-  (3, "err = payload.SerializeTo(buffer, options)"),  -- ?
-  (3, "if err != nil"),  -- ?
-  (4, "panic(err)"),  -- ?
-  (3, "buffer.PushLayer(payload.LayerType())"),  -- ?
-  (3, "err = scmpLayer.SerializeTo(buffer, options)"),  -- ?
-  (3, "if err != nil"),  -- ?
-  (4, "panic(err)"),  -- ?
-  (3, "buffer.PushLayer(scmpLayer.LayerType())"),  -- ?
-  (3, "err = scionLayer.SerializeTo(buffer, options)"),  -- ?
-  (3, "if err != nil"),  -- ?
-  (4, "panic(err)"),  -- ?
-  (3, "buffer.PushLayer(scionLayer.LayerType())"),  -- ?
-  (3, "m, err := conn.WriteToUDPAddrPort(buffer.Bytes(), lastHop)"),  -- ?
-  (3, "if err != nil || m != len(buffer.Bytes())"),  -- ?
-  (4, "continue"),  -- ?
-  (3, "_, id, err := udp.ReadTXTimestamp(conn)"),  -- ?
-  (3, "for err == nil && int32(id-txid) < 0"),  -- ?
-  (4, "_, id, err = udp.ReadTXTimestamp(conn)"),  -- ?
-  (3, "if err != nil"),  -- ?
-  (4, "txid++"),  -- ?
-  (3, "else if id != txid"),  -- ?
-  (4, "txid = id + 1"),  -- ?
-  (3, "else"),  -- ?
-  (4, "txid++"),  -- ?
-  (3, "continue"),  -- ?
-  (2, "if len(buf) < int(udpLayer.Length)"),  -- ?
-  (3, "continue"),  -- ?
-  (2, "srcAddr, ok := netip.AddrFromSlice(scionLayer.RawSrcAddr)"),  -- ?
-  (2, "if !ok"),  -- ?
-  (3, "continue"),  -- ?
-  (2, "dstAddr, ok := netip.AddrFromSlice(scionLayer.RawDstAddr)"),  -- ?
-  (2, "if !ok"),  -- ?
-  (3, "continue"),  -- ?
-  (2, "if int(udpLayer.DstPort) != localHostPort"),  -- ?
-  (3, "if localConnPort != scion.EndhostPort || udpLayer.DstPort == scion.EndhostPort"),  -- ?
-  (4, "continue"),  -- ?
-  (3, "dstAddrPort := netip.AddrPortFrom(dstAddr, udpLayer.DstPort)"),  -- ?
-  (3, "payload := gopacket.Payload(udpLayer.Payload)"),  -- ?
-  (3, "err = buffer.Clear()"),  -- ?
-  (3, "if err != nil"),  -- ?
-  (4, "panic(err)"),  -- ?
-  (3, "err = payload.SerializeTo(buffer, options)"),  -- ?
-  (3, "if err != nil"),  -- ?
-  (4, "panic(err)"),  -- ?
-  (3, "buffer.PushLayer(payload.LayerType())"),  -- ?
-  (3, "err = udpLayer.SerializeTo(buffer, options)"),  -- ?
-  (3, "if err != nil"),  -- ?
-  (4, "panic(err)"),  -- ?
-  (3, "buffer.PushLayer(udpLayer.LayerType())"),  -- ?
-  (3, "if len(oob) != 0"),  -- ?
-  (4, "tsOpt.OptType = scion.OptTypeTimestamp"),  -- ?
-  (4, "tsOpt.OptData = oob"),  -- ?
-  (4, "tsOpt.OptAlign[0] = 0"),  -- ?
-  (4, "tsOpt.OptAlign[1] = 0"),  -- ?
-  (4, "tsOpt.OptDataLen = 0"),  -- ?
-  (4, "tsOpt.ActualLength = 0"),  -- ?
-  (4, "if scionLayer.NextHdr != slayers.End2EndClass"),  -- ?
-  (5, "e2eLayer = slayers.EndToEndExtn{}"),  -- ?
-  (5, "e2eLayer.NextHdr = slayers.L4UDP"),  -- ?
-  (5, "scionLayer.NextHdr = slayers.End2EndClass"),  -- ?
-  (4, "e2eLayer.Options = append(e2eLayer.Options, tsOpt)"),  -- ?
-  (3, "if scionLayer.NextHdr == slayers.End2EndClass"),  -- ?
-  (4, "err = e2eLayer.SerializeTo(buffer, options)"),  -- ?
-  (4, "if err != nil"),  -- ?
-  (5, "panic(err)"),  -- ?
-  (4, "buffer.PushLayer(e2eLayer.LayerType())"),  -- ?
-  (3, "err = scionLayer.SerializeTo(buffer, options)"),  -- ?
-  (3, "if err != nil"),  -- ?
-  (4, "panic(err)"),  -- ?
-  (3, "buffer.PushLayer(scionLayer.LayerType())"),  -- ?
-  (3, "m, err := conn.WriteToUDPAddrPort(buffer.Bytes(), dstAddrPort)"),  -- ?
-  (3, "if err != nil || m != len(buffer.Bytes())"),  -- ?
-  (4, "continue"),  -- ?
-  (3, "_, id, err := udp.ReadTXTimestamp(conn)"),  -- ?
-  (3, "for err == nil && int32(id-txid) < 0"),  -- ?
-  (4, "_, id, err = udp.ReadTXTimestamp(conn)"),  -- ?
-  (3, "if err != nil"),  -- ?
-  (4, "txid++"),  -- ?
-  (3, "else if id != txid"),  -- ?
-  (4, "txid = id + 1"),  -- ?
-  (3, "else"),  -- ?
-  (4, "txid++"),  -- ?
-  (2, "else"),  -- ?
-  (3, "if localHostPort == scion.EndhostPort"),  -- ?
-  (4, "continue"),  -- ?
-  (3, "var ( authOpt *slayers.EndToEndOption authKey []byte )"),  -- ?
-  (3, "authenticated := false"),  -- ?
-  (3, "if fetcher != nil && len(decoded) >= 3 && decoded[len(decoded)-2] == slayers.LayerTypeEndToEndExtn"),  -- ?
-  (4, "authOpt, err = e2eLayer.FindOption(slayers.OptTypeAuthenticator)"),  -- ?
-  (4, "if err == nil"),  -- ?
-  (5, "if len(authOpt.OptData) != scion.PacketAuthOptDataLen"),  -- ?
-  (6, "continue"),  -- ?
-  (5, "spi, algo := scion.PacketAuthOptMetadata(authOpt)"),  -- ?
-  (5, "if spi == scion.PacketAuthSPIClient && algo == scion.PacketAuthAlgorithm"),  -- ?
-  (6, "hostASKey, err := fetcher.FetchHostASKey(ctx, drkey.HostASMeta{ ProtoId: scion.DRKeyProtocolTS, Validity: rxt, SrcIA: scionLayer.DstIA, DstIA: scionLayer.SrcIA, SrcHost: dstAddr.String()})"),  -- ?
-  (6, "if err != nil"),  -- ?
-  (6, "else"),  -- ?
-  (7, "hostHostKey, err := scion.DeriveHostHostKey(hostASKey, srcAddr.String())"),  -- ?
-  (7, "if err != nil"),  -- ?
-  (8, "panic(err)"),  -- ?
-  (7, "authKey = hostHostKey.Key[:]"),  -- ?
-  (7, "if authMockKey != nil"),  -- ?
-  (8, "authKey = authMockKey"),  -- ?
-  (7, "_, err = spao.ComputeAuthCMAC( spao.MACInput{ Key: authKey, Header: slayers.PacketAuthOption{EndToEndOption: authOpt}, ScionLayer: &scionLayer, PldType: slayers.L4UDP, Pld: buf[len(buf)-int(udpLayer.Length):]}, authBuf, authMAC)"),  -- ?
-  (7, "if err != nil"),  -- ?
-  (8, "continue"),  -- ?
-  (7, "authenticated = subtle.ConstantTimeCompare(scion.PacketAuthOptMAC(authOpt), authMAC) != 0"),  -- ?
-  (7, "if !authenticated"),  -- ?
-  (8, "continue"),  -- ?
-  (3, "var ntpreq ntp.Packet"),  -- ?
-  (3, "err = ntp.DecodePacket(&ntpreq, udpLayer.Payload)"),  -- ?
-  (3, "if err != nil"),  -- ?
-  (4, "continue"),  -- ?
-  (3, "ntsAuthenticated := false"),  -- ?
-  (3, "var ntsreq nts.Packet"),  -- ?
-  (3, "var serverCookie ntske.ServerCookie"),  -- ?
-  (3, "if len(udpLayer.Payload) > ntp.PacketLen"),  -- ?
-  (4, "err = nts.DecodePacket(&ntsreq, udpLayer.Payload)"),  -- ?
-  (4, "if err != nil"),  -- ?
-  (5, "continue"),  -- ?
-  (4, "cookie, err := ntsreq.FirstCookie()"),  -- ?
-  (4, "if err != nil"),  -- ?
-  (5, "continue"),  -- ?
-  (4, "var encryptedCookie ntske.EncryptedServerCookie"),  -- ?
-  (4, "err = encryptedCookie.Decode(cookie)"),  -- ?
-  (4, "if err != nil"),  -- ?
-  (5, "continue"),  -- ?
-  (4, "key, ok := provider.Get(int(encryptedCookie.ID))"),  -- ?
-  (4, "if !ok"),  -- ?
-  (5, "continue"),  -- ?
-  (4, "serverCookie, err = encryptedCookie.Decrypt(key.Value)"),  -- ?
-  (4, "if err != nil"),  -- ?
-  (5, "continue"),  -- ?
-  (4, "err = nts.ProcessRequest(udpLayer.Payload, serverCookie.C2S, &ntsreq)"),  -- ?
-  (4, "if err != nil"),  -- ?
-  (5, "continue"),  -- ?
-  (4, "ntsAuthenticated = true"),  -- ?
-  (3, "err = ntp.ValidateRequest(&ntpreq, udpLayer.SrcPort)"),  -- ?
-  (3, "if err != nil"),  -- ?
-  (4, "continue"),  -- ?
-  (3, "clientID := scionLayer.SrcIA.String() + \",\" + srcAddr.String()"),  -- ?
-  (3, "var txt0 time.Time"),  -- ?
-  (3, "var ntpresp ntp.Packet"),  -- ?
-  (3, "handleRequest(clientID, &ntpreq, &rxt, &txt0, &ntpresp)"),  -- ?
-  (3, "scionLayer.TrafficClass = dscp << 2"),  -- ?
-  (3, "scionLayer.DstIA, scionLayer.SrcIA = scionLayer.SrcIA, scionLayer.DstIA"),  -- ?
-  (3, "scionLayer.DstAddrType, scionLayer.SrcAddrType = scionLayer.SrcAddrType, scionLayer.DstAddrType"),  -- ?
-  (3, "scionLayer.RawDstAddr, scionLayer.RawSrcAddr = scionLayer.RawSrcAddr, scionLayer.RawDstAddr"),  -- ?
-  (3, "scionLayer.Path, err = scionLayer.Path.Reverse()"),  -- ?
-  (3, "if err != nil"),  -- ?
-  (4, "continue"),  -- ?
-  (3, "scionLayer.PathType = scionLayer.Path.Type()"),  -- ?
-  (3, "scionLayer.NextHdr = slayers.L4UDP"),  -- ?
-  (3, "udpLayer.DstPort, udpLayer.SrcPort = udpLayer.SrcPort, udpLayer.DstPort"),  -- ?
-  (3, "ntp.EncodePacket(&udpLayer.Payload, &ntpresp)"),  -- ?
-  (3, "if ntsAuthenticated"),  -- ?
-  (4, "var cookies [][]byte"),  -- ?
-  (4, "key := provider.Current()"),  -- ?
-  (4, "addedCookie := false"),  -- ?
-  (4, "for range len(ntsreq.Cookies) + len(ntsreq.CookiePlaceholders)"),  -- ?
-  (5, "encryptedCookie, err := serverCookie.EncryptWithNonce(key.Value, key.ID)"),  -- ?
-  (5, "if err != nil"),  -- ?
-  (6, "continue"),  -- ?
-  (5, "cookie := encryptedCookie.Encode()"),  -- ?
-  (5, "cookies = append(cookies, cookie)"),  -- ?
-  (5, "addedCookie = true"),  -- ?
-  (4, "if !addedCookie"),  -- ?
-  (5, "continue"),  -- ?
-  (4, "ntsresp := nts.NewResponsePacket(cookies, serverCookie.S2C, ntsreq.UniqueID.ID)"),  -- ?
-  (4, "nts.EncodePacket(&udpLayer.Payload, &ntsresp)"),  -- ?
-  (3, "payload := gopacket.Payload(udpLayer.Payload)"),  -- ?
-  (3, "err = buffer.Clear()"),  -- ?
-  (3, "if err != nil"),  -- ?
-  (4, "panic(err)"),  -- ?
-  (3, "err = payload.SerializeTo(buffer, options)"),  -- ?
-  (3, "if err != nil"),  -- ?
-  (4, "panic(err)"),  -- ?
-  (3, "buffer.PushLayer(payload.LayerType())"),  -- ?
-  (3, "err = udpLayer.SerializeTo(buffer, options)"),  -- ?
-  (3, "if err != nil"),  -- ?
-  (4, "panic(err)"),  -- ?
-  (3, "buffer.PushLayer(udpLayer.LayerType())"),  -- ?
-  (3, "if authenticated"),  -- ?
-  (4, "scion.PreparePacketAuthOpt(authOpt, scion.PacketAuthSPIServer, scion.PacketAuthAlgorithm)"),  -- ?
-  (4, "_, err = spao.ComputeAuthCMAC( spao.MACInput{ Key: authKey, Header: slayers.PacketAuthOption{EndToEndOption: authOpt}, ScionLayer: &scionLayer, PldType: scionLayer.NextHdr, Pld: buffer.Bytes()}, authBuf, scion.PacketAuthOptMAC(authOpt))"),  -- ?
-  (4, "if err != nil"),  -- ?
-  (5, "panic(err)"),  -- ?
-  (4, "e2eExtn := slayers.EndToEndExtn{}"),  -- ?
-  (4, "e2eExtn.NextHdr = scionLayer.NextHdr"),  -- ?
-  (4, "e2eExtn.Options = []*slayers.EndToEndOption{authOpt}"),  -- ?
-  (4, "err = e2eExtn.SerializeTo(buffer, options)"),  -- ?
-  (4, "if err != nil"),  -- ?
-  (5, "panic(err)"),  -- ?
-  (4, "buffer.PushLayer(e2eExtn.LayerType())"),  -- ?
-  (4, "scionLayer.NextHdr = slayers.End2EndClass"),  -- ?
-  (3, "err = scionLayer.SerializeTo(buffer, options)"),  -- ?
-  (3, "if err != nil"),  -- ?
-  (4, "panic(err)"),  -- ?
-  (3, "buffer.PushLayer(scionLayer.LayerType())"),  -- ?
-  (3, "n, err = conn.WriteToUDPAddrPort(buffer.Bytes(), lastHop)"),  -- ?
-  (3, "if err != nil || n != len(buffer.Bytes())"),  -- ?
-  (4, "continue"),  -- ?
-  (3, "txt1, id, err := udp.ReadTXTimestamp(conn)"),  -- ?
-  (3, "for err == nil && int32(id-txid) < 0"),  -- ?
-  (4, "txt1, id, err = udp.ReadTXTimestamp(conn)"),  -- ?
-  (3, "if err != nil"),  -- ?
-  (4, "txt1 = txt0"),  -- ?
-  (4, "txid++"),  -- ?
-  (3, "else if id != txid"),  -- ?
-  (4, "txt1 = txt0"),  -- ?
-  (4, "txid = id + 1"),  -- ?
-  (3, "else"),  -- ?
-  (4, "txid++"),  -- ?
-  (3, "updateTXTimestamp(clientID, rxt, &txt1)")  -- ?
+  (0, "func runSCIONServer(ctx context.Context, log *slog.Logger, mtrcs *scionServerMetrics, conn *net.UDPConn, localHostIface string, localHostPort int, dscp uint8, fetcher *scion.Fetcher, provider *ntske.Provider)"),  -- ScionSrv.handleG true (decision per datagram) + ListenerTx.stepEv (send, txid, store) + ServerReply.shouldReplyPayload
+  (1, "defer conn.Close()"),  -- env: defer conn.Close()
+  (1, "localConnPort := conn.LocalAddr().(*net.UDPAddr).Port"),  -- ScionSrv.Cfg: connPort (port the socket is bound to)
+  (1, "err := udp.EnableTimestamping(conn, localHostIface)"),  -- env: socket set-up (SO_TIMESTAMPING); what the kernel then delivers enters as ListenerTx Ev.ntp krx and KB
+  (1, "if err != nil"),  -- ListenerTx.KB: | never, Ev.ntp krx = none - error only logged, listener runs on without kernel timestamps
+  (1, "err = udp.SetDSCP(conn, dscp)"),  -- env: socket option set-up (IP_TOS); the reply's SCION traffic class is set separately (ScionSrv.ntpReply tc)
+  (1, "if err != nil"),  -- env: error only logged, no behaviour in any model
+  (1, "var txid uint32"),  -- ListenerTx.LSock.init: txid := 0 (per goroutine / socket); pin C06_pin_txidAssignments: &txid never taken
+  (1, "buf := make([]byte, scion.MTU)"),  -- env: buffer allocation (scion.MTU = Gen.Scion.MTU, used by no model; see row 32)
+  (1, "oob := make([]byte, udp.TimestampLen())"),  -- env: buffer allocation for ancillary data
+  (1, "var ( scionLayer slayers.SCION hbhLayer slayers.HopByHopExtnSkipper e2eLayer slayers.EndToEndExtn udpLayer slayers.UDP scmpLayer slayers.SCMP )"),  -- env: layer structs refilled by the parser every iteration; ScionSrv.serve: no state carried between packets
+  (1, "scionLayer.RecyclePaths()"),  -- env: slayers configuration (path objects reused)
+  (1, "udpLayer.SetNetworkLayerForChecksum(&scionLayer)"),  -- env: checksum plumbing of the serialiser
+  (1, "scmpLayer.SetNetworkLayerForChecksum(&scionLayer)"),  -- env: checksum plumbing of the serialiser
+  (1, "parser := gopacket.NewDecodingLayerParser( slayers.LayerTypeSCION, &scionLayer, &hbhLayer, &e2eLayer, &udpLayer, &scmpLayer)"),  -- env: gopacket parser set-up; its result is the abstract ScionSrv.Pkt
+  (1, "parser.IgnoreUnsupported = true"),  -- env: parser configuration; an unknown L4 then decodes without error and is ScionSrv.L4.other (row 43)
+  (1, "decoded := make([]gopacket.LayerType, 4)"),  -- env: buffer allocation
+  (1, "buffer := gopacket.NewSerializeBuffer()"),  -- env: serialisation buffer allocation
+  (1, "options := gopacket.SerializeOptions{ ComputeChecksums: true, FixLengths: true}"),  -- env: serialiser options (checksums and lengths computed by slayers, outside the model)
+  (1, "var authBuf, authMAC, authMockKey []byte"),  -- env: variable declarations
+  (1, "if fetcher != nil"),  -- ScionSrv.Cfg: fetcher (true for StartSCIONServer, false for the dispatcher)
+  (2, "authBuf = make([]byte, spao.MACBufferSize)"),  -- env: buffer allocation
+  (2, "authMAC = make([]byte, scion.PacketAuthMACLen)"),  -- env: buffer allocation
+  (2, "if scion.UseMockKeys()"),  -- ScionSrv.Cfg: mockKeys; Drkey.Cfg: mock
+  (3, "authMockKey = new(drkey.Key)[:]"),  -- Drkey.listenerKey: if cfg.mock then List.replicate 16 0 (all-zero key)
+  (1, "tsOpt := &slayers.EndToEndOption{}"),  -- env: allocation of the option struct reused by the forwarding branch (rows 117-128)
+  (1, "for"),  -- ScionSrv.serve: history.map (handle cfg); ListenerTx.runEvs: one stepEv per datagram
+  (2, "buf = buf[:cap(buf)]"),  -- ScionSrv.serve: whole loop as map handle, no buffer state (restore pinned for runIPServer only, C09_pin_restoreAtLoopTop)
+  (2, "oob = oob[:cap(oob)]"),  -- UNMODELLED: oob restored after row 37 emptied it; oob is loop state in no model (krx free per event), pin is runIPServer-only
+  (2, "n, oobn, flags, lastHop, err := conn.ReadMsgUDPAddrPort(buf, oob)"),  -- env: socket read; results enter as ScionSrv.Pkt (bytes n), Pkt.lastHop, oob -> ListenerTx.Ev.ntp krx
+  (2, "if err != nil"),  -- UNMODELLED: read error: continue at once, no back-off or exit, ctx never consulted; no SCION model has a read-error event
+  (3, "continue"),  -- ListenerTx.stepEv: | .drop sk - effect only (nothing written, txid and store unchanged); the condition is row 30
+  (2, "if flags != 0"),  -- UNMODELLED: flagged read (MSG_TRUNC: datagram longer than the scion.MTU buffer) dropped; no SCION model has this condition
+  (3, "continue"),  -- ListenerTx.stepEv: | .drop sk - effect only (no state change); the condition is row 32
+  (2, "oob = oob[:oobn]"),  -- env: slices the ancillary data the kernel delivered (input of Udp.timestampFromOOBData)
+  (2, "rxt, err := udp.TimestampFromOOBData(oob)"),  -- Udp.timestampFromOOBData (walkGen true) on kernel ancillary data; result = ListenerTx.Ev.ntp krx (some t / none)
+  (2, "if err != nil"),  -- ListenerTx.stepEv: rxt0 := krx.getD nowRx - case krx = none
+  (3, "oob = oob[:0]"),  -- UNMODELLED: oob emptied so the forwarding branch appends no timestamp option (row 117); the option is in no model
+  (3, "rxt = timebase.Now()"),  -- ListenerTx.stepEv: rxt0 := krx.getD nowRx - nowRx (clock reading after the read); Props C06_rx_fallback
+  (2, "buf = buf[:n]"),  -- ScionSrv.Pkt: the n bytes handed to the parser; len(buf) enters Pkt.udpLenOk
+  (2, "err = parser.DecodeLayers(buf, &decoded)"),  -- env: gopacket/slayers parsing, outside by design; result = ScionSrv.Pkt (l4, e2e, auth, addresses, path, ports, payload)
+  (2, "if err != nil"),  -- ScionSrv.handleG: defined only after a successful decode (parser verdict is an input); failure = ListenerTx | .drop sk
+  (3, "continue"),  -- ListenerTx.stepEv: | .drop sk
+  (2, "validType := len(decoded) >= 2 && (decoded[len(decoded)-1] == slayers.LayerTypeSCIONUDP || decoded[len(decoded)-1] == slayers.LayerTypeSCMP)"),  -- ScionSrv.Pkt.l4: L4.other = neither SCION/UDP nor SCMP last (or fewer than 2 layers)
+  (2, "if !validType"),  -- ScionSrv.handleG: | .other => .drop "type"
+  (3, "continue"),  -- ScionSrv.handleG: .drop "type"; ListenerTx.stepEv | .drop sk
+  (2, "if decoded[len(decoded)-1] == slayers.LayerTypeSCMP"),  -- ScionSrv.handleG: | .scmp t _
+  (3, "var payload gopacket.Payload"),  -- env: variable declaration
+  (3, "switch scmpLayer.TypeCode.Type()"),  -- ScionSrv.handleG: if t = scmpEchoRequest or t = scmpTracerouteRequest
+  (4, "case slayers.SCMPTypeEchoRequest"),  -- ScionSrv.handleG: t = scmpEchoRequest (128)
+  (5, "payload = gopacket.Payload(scmpLayer.Payload)"),  -- ScionSrv.mkReply: payload := .echo p.payload
+  (5, "scmpLayer.TypeCode = slayers.CreateSCMPTypeCode( slayers.SCMPTypeEchoReply, 0)"),  -- ScionSrv.scmpReply: l4 := .scmp scmpEchoReply 0
+  (4, "case slayers.SCMPTypeTracerouteRequest"),  -- ScionSrv.handleG: t = scmpTracerouteRequest (130)
+  (5, "payload = gopacket.Payload(scmpLayer.Payload)"),  -- ScionSrv.mkReply: payload := .echo p.payload
+  (5, "scmpLayer.TypeCode = slayers.CreateSCMPTypeCode( slayers.SCMPTypeTracerouteReply, 0)"),  -- ScionSrv.scmpReply: l4 := .scmp scmpTracerouteReply 0
+  (4, "default"),  -- ScionSrv.handleG: else .drop "scmp-type"
+  (5, "continue"),  -- ScionSrv.handleG: .drop "scmp-type"; ListenerTx.stepEv | .drop sk
+  (3, "scionLayer.DstIA, scionLayer.SrcIA = scionLayer.SrcIA, scionLayer.DstIA"),  -- ScionSrv.mkReply: srcIA := p.dstIA, dstIA := p.srcIA
+  (3, "scionLayer.DstAddrType, scionLayer.SrcAddrType = scionLayer.SrcAddrType, scionLayer.DstAddrType"),  -- ScionSrv.mkReply: srcType := p.dstType, dstType := p.srcType
+  (3, "scionLayer.RawDstAddr, scionLayer.RawSrcAddr = scionLayer.RawSrcAddr, scionLayer.RawDstAddr"),  -- ScionSrv.mkReply: srcAddr := p.dstAddr, dstAddr := p.srcAddr
+  (3, "scionLayer.Path, err = scionLayer.Path.Reverse()"),  -- ScionSrv.Pkt.rev: oracle Path.Reverse() (harness c13 op srv.handle rev=)
+  (3, "if err != nil"),  -- ScionSrv.handleG (scmp): match p.rev | none => if fixed then .drop "reverse" (old: .panic explicit:reverse, F4c)
+  (4, "continue"),  -- ScionSrv.handleG: .drop "reverse"; ListenerTx.stepEv | .drop sk
+  (3, "scionLayer.PathType = scionLayer.Path.Type()"),  -- ScionSrv.mkReply: pathType := if fixed then rt (type of the reversed path; old code kept p.pathType)
+  (3, "scionLayer.NextHdr = slayers.L4SCMP"),  -- ScionSrv.scmpReply: l4 := .scmp .., auth := none - SCMP directly after the SCION header, no extension headers
+  (3, "err = buffer.Clear()"),  -- env: serialisation buffer reset (gopacket)
+  (3, "if err != nil"),  -- env: gopacket serializeBuffer.Clear always returns nil
+  (4, "panic(err)"),  -- env: unreachable, Clear cannot fail
+  (3, "err = payload.SerializeTo(buffer, options)"),  -- env: gopacket serialisation of the echoed payload (ScionSrv.RPayload.echo)
+  (3, "if err != nil"),  -- env: Payload.SerializeTo fails only if PrependBytes fails, which always returns nil
+  (4, "panic(err)"),  -- env: unreachable, see row 69
+  (3, "buffer.PushLayer(payload.LayerType())"),  -- env: gopacket layer bookkeeping
+  (3, "err = scmpLayer.SerializeTo(buffer, options)"),  -- env: slayers serialisation of the 4-byte SCMP header + checksum (reply compared field-wise by harness c13)
+  (3, "if err != nil"),  -- env: tests the serialiser's error; consequence see row 74
+  (4, "panic(err)"),  -- UNMODELLED: panic(err) when SCMP.SerializeTo fails (checksum needs raw addresses); Outcome.panic has no serialisation class
+  (3, "buffer.PushLayer(scmpLayer.LayerType())"),  -- env: gopacket layer bookkeeping
+  (3, "err = scionLayer.SerializeTo(buffer, options)"),  -- env: slayers serialisation of the SCION header (fields = ScionSrv.Reply, compared by harness c13 op srv.handle)
+  (3, "if err != nil"),  -- env: tests the serialiser's error; consequence see row 78
+  (4, "panic(err)"),  -- UNMODELLED: panic(err) when SCION.SerializeTo fails (header > 1020 bytes / not multiple of 4, address header, reversed path)
+  (3, "buffer.PushLayer(scionLayer.LayerType())"),  -- env: gopacket layer bookkeeping
+  (3, "m, err := conn.WriteToUDPAddrPort(buffer.Bytes(), lastHop)"),  -- ListenerTx.LSock.send (stepEv | .aux); ScionSrv.mkReply: nextHop := p.lastHop; pin C06_pin_txPostSend: send site 1 of 3
+  (3, "if err != nil || m != len(buffer.Bytes())"),  -- ListenerTx: failed write taken as not counted by the kernel = | .drop sk (recorded assumption, notes/C06Tx); no Ev for it
+  (4, "continue"),  -- ListenerTx.stepEv: | .drop sk (txid unchanged); see row 81
+  (3, "_, id, err := udp.ReadTXTimestamp(conn)"),  -- ListenerTx.reads: first ReadTXTimestamp (readTX / kernelRead); pin C06_pin_txPostSend srcPostSendAux
+  (3, "for err == nil && int32(id-txid) < 0"),  -- ListenerTx.reads: fixed && s.id < txid (skip the stamp of an earlier datagram, F20 repair)
+  (4, "_, id, err = udp.ReadTXTimestamp(conn)"),  -- ListenerTx.reads: recursive call, nreads + 1
+  (3, "if err != nil"),  -- ListenerTx.decide3: r.err ≠ .none
+  (4, "txid++"),  -- ListenerTx.decide3: if fixed then txid + 1; pin C06_pin_txidAssignments
+  (3, "else if id != txid"),  -- ListenerTx.decide3: else if r.id ≠ txid
+  (4, "txid = id + 1"),  -- ListenerTx.decide3: r.id + 1
+  (3, "else"),  -- ListenerTx.decide3: else (own stamp)
+  (4, "txid++"),  -- ListenerTx.decide3: txid + 1
+  (3, "continue"),  -- ListenerTx.stepEv: | .aux sk kb ends (sendRead cfg sock 0 kb, store untouched); ScionSrv.handleG = .reply (scmpReply ..)
+  (2, "if len(buf) < int(udpLayer.Length)"),  -- ScionSrv.handleG: | .udp => if !p.udpLenOk
+  (3, "continue"),  -- ScionSrv.handleG: .drop "udp-length"; ListenerTx.stepEv | .drop sk
+  (2, "srcAddr, ok := netip.AddrFromSlice(scionLayer.RawSrcAddr)"),  -- ScionSrv.addrOk p.srcAddr (4 or 16 bytes); pin C06_pin_clientIdScion_srcAddr (x_c06.go)
+  (2, "if !ok"),  -- ScionSrv.handleG: else if !addrOk p.srcAddr - fixed: .drop "src-addr" (old: panic, F4a)
+  (3, "continue"),  -- ScionSrv.handleG: .drop "src-addr"; ListenerTx.stepEv | .drop sk
+  (2, "dstAddr, ok := netip.AddrFromSlice(scionLayer.RawDstAddr)"),  -- ScionSrv.addrOk p.dstAddr
+  (2, "if !ok"),  -- ScionSrv.handleG: else if !addrOk p.dstAddr - fixed: .drop "dst-addr"
+  (3, "continue"),  -- ScionSrv.handleG: .drop "dst-addr"; ListenerTx.stepEv | .drop sk
+  (2, "if int(udpLayer.DstPort) != localHostPort"),  -- ScionSrv.handleG: else if p.dstPort ≠ cfg.localHostPort
+  (3, "if localConnPort != scion.EndhostPort || udpLayer.DstPort == scion.EndhostPort"),  -- ScionSrv.handleG: if cfg.connPort ≠ EndhostPort or p.dstPort = EndhostPort
+  (4, "continue"),  -- ScionSrv.handleG: .drop "forward-port"; ListenerTx.stepEv | .drop sk
+  (3, "dstAddrPort := netip.AddrPortFrom(dstAddr, udpLayer.DstPort)"),  -- ScionSrv.Fwd: toAddr := p.dstAddr, toPort := p.dstPort
+  (3, "payload := gopacket.Payload(udpLayer.Payload)"),  -- ScionSrv.Fwd: pkt := p (payload as received)
+  (3, "err = buffer.Clear()"),  -- env: serialisation buffer reset
+  (3, "if err != nil"),  -- env: Clear always returns nil
+  (4, "panic(err)"),  -- env: unreachable, Clear cannot fail
+  (3, "err = payload.SerializeTo(buffer, options)"),  -- env: gopacket serialisation of the payload as received
+  (3, "if err != nil"),  -- env: Payload.SerializeTo cannot fail (PrependBytes always returns nil)
+  (4, "panic(err)"),  -- env: unreachable, see row 110
+  (3, "buffer.PushLayer(payload.LayerType())"),  -- env: gopacket layer bookkeeping
+  (3, "err = udpLayer.SerializeTo(buffer, options)"),  -- env: slayers serialisation of the UDP header as received (Fwd.pkt; ports, payload compared by harness c13), checksum redone
+  (3, "if err != nil"),  -- env: tests the serialiser's error; consequence see row 115
+  (4, "panic(err)"),  -- UNMODELLED: panic(err) when UDP.SerializeTo fails (checksum over the SCION pseudo header)
+  (3, "buffer.PushLayer(udpLayer.LayerType())"),  -- env: gopacket layer bookkeeping
+  (3, "if len(oob) != 0"),  -- UNMODELLED: forwarding: a kernel rx timestamp, if read, is appended to the packet as an E2E option; Fwd.pkt := p has none
+  (4, "tsOpt.OptType = scion.OptTypeTimestamp"),  -- UNMODELLED: option type 253 (scion.OptTypeTimestamp) of the appended option
+  (4, "tsOpt.OptData = oob"),  -- UNMODELLED: option data = raw kernel control-message bytes (oob) of this datagram: a linux cmsg is put on the wire
+  (4, "tsOpt.OptAlign[0] = 0"),  -- UNMODELLED: alignment of the appended option reset
+  (4, "tsOpt.OptAlign[1] = 0"),  -- UNMODELLED: alignment of the appended option reset
+  (4, "tsOpt.OptDataLen = 0"),  -- UNMODELLED: stale OptDataLen of the reused option struct reset
+  (4, "tsOpt.ActualLength = 0"),  -- UNMODELLED: stale ActualLength of the reused option struct reset
+  (4, "if scionLayer.NextHdr != slayers.End2EndClass"),  -- UNMODELLED: decision: no E2E extension directly after the SCION header (also true when a hop-by-hop extension comes first)
+  (5, "e2eLayer = slayers.EndToEndExtn{}"),  -- UNMODELLED: fresh empty E2E extension replaces whatever e2eLayer held
+  (5, "e2eLayer.NextHdr = slayers.L4UDP"),  -- UNMODELLED: fresh extension's NextHdr := UDP
+  (5, "scionLayer.NextHdr = slayers.End2EndClass"),  -- UNMODELLED: SCION NextHdr := End2EndClass (a received HopByHopClass is overwritten: HBH header dropped from the forward)
+  (4, "e2eLayer.Options = append(e2eLayer.Options, tsOpt)"),  -- UNMODELLED: timestamp option appended after the options the packet already carried
+  (3, "if scionLayer.NextHdr == slayers.End2EndClass"),  -- UNMODELLED: E2E ext re-serialised only if directly after SCION hdr; oob empty + NextHdr = HBH: no ext written, NextHdr kept
+  (4, "err = e2eLayer.SerializeTo(buffer, options)"),  -- env: slayers serialisation of the E2E extension
+  (4, "if err != nil"),  -- env: tests the serialiser's error; consequence see row 132
+  (5, "panic(err)"),  -- UNMODELLED: panic(err) when EndToEndExtn.SerializeTo fails (NextHdr check, length not a multiple of 4)
+  (4, "buffer.PushLayer(e2eLayer.LayerType())"),  -- env: gopacket layer bookkeeping
+  (3, "err = scionLayer.SerializeTo(buffer, options)"),  -- env: slayers serialisation of the SCION header as received (Fwd.pkt; fields compared by harness c13 fmtForward)
+  (3, "if err != nil"),  -- env: tests the serialiser's error; consequence see row 136
+  (4, "panic(err)"),  -- UNMODELLED: panic(err) when SCION.SerializeTo fails
+  (3, "buffer.PushLayer(scionLayer.LayerType())"),  -- env: gopacket layer bookkeeping
+  (3, "m, err := conn.WriteToUDPAddrPort(buffer.Bytes(), dstAddrPort)"),  -- ListenerTx.LSock.send (stepEv | .aux); destination = ScionSrv.Fwd toAddr/toPort; pin C06_pin_txPostSend: send site 2 of 3
+  (3, "if err != nil || m != len(buffer.Bytes())"),  -- ListenerTx: failed write = | .drop sk (assumed not counted by kernel); notes/C13: IPv6 forward from IPv4 socket fails here
+  (4, "continue"),  -- ListenerTx.stepEv: | .drop sk; ScionSrv outcome stays .forward
+  (3, "_, id, err := udp.ReadTXTimestamp(conn)"),  -- ListenerTx.reads: first ReadTXTimestamp; pin C06_pin_txPostSend srcPostSendAux
+  (3, "for err == nil && int32(id-txid) < 0"),  -- ListenerTx.reads: fixed && s.id < txid
+  (4, "_, id, err = udp.ReadTXTimestamp(conn)"),  -- ListenerTx.reads: recursive call
+  (3, "if err != nil"),  -- ListenerTx.decide3: r.err ≠ .none
+  (4, "txid++"),  -- ListenerTx.decide3: txid + 1 (fixed)
+  (3, "else if id != txid"),  -- ListenerTx.decide3: else if r.id ≠ txid
+  (4, "txid = id + 1"),  -- ListenerTx.decide3: r.id + 1
+  (3, "else"),  -- ListenerTx.decide3: else
+  (4, "txid++"),  -- ListenerTx.decide3: txid + 1; stepEv | .aux ends (no continue: end of loop body)
+  (2, "else"),  -- ScionSrv.handleG: else (p.dstPort = cfg.localHostPort)
+  (3, "if localHostPort == scion.EndhostPort"),  -- ScionSrv.handleG: else if cfg.localHostPort = EndhostPort (dispatcherCfg; Props C13_dispatcher_never_serves)
+  (4, "continue"),  -- ScionSrv.handleG: .drop "endhost-port"; ListenerTx.stepEv | .drop sk
+  (3, "var ( authOpt *slayers.EndToEndOption authKey []byte )"),  -- env: variable declarations (authOpt = Pkt.auth, authKey = Drkey.KeyUse.key)
+  (3, "authenticated := false"),  -- ScionSrv.authCheck: default .go false
+  (3, "if fetcher != nil && len(decoded) >= 3 && decoded[len(decoded)-2] == slayers.LayerTypeEndToEndExtn"),  -- ScionSrv.authCheck: if cfg.fetcher && p.e2e (Pkt.e2e = E2E extension directly before the L4 header)
+  (4, "authOpt, err = e2eLayer.FindOption(slayers.OptTypeAuthenticator)"),  -- ScionSrv.Pkt.auth: OptData of the first authenticator option
+  (4, "if err == nil"),  -- ScionSrv.authCheck: match p.auth | none => .go false | some d
+  (5, "if len(authOpt.OptData) != scion.PacketAuthOptDataLen"),  -- ScionSrv.authCheck: if d.length ≠ optDataLen (28; pin C13_pin_PacketAuthOptDataLen)
+  (6, "continue"),  -- ScionSrv.authCheck: fixed: .drop "auth-option-length" (old: panic in PacketAuthOptMetadata, F4b)
+  (5, "spi, algo := scion.PacketAuthOptMetadata(authOpt)"),  -- ScionSrv.authMeta; harness c13 op auth.meta
+  (5, "if spi == scion.PacketAuthSPIClient && algo == scion.PacketAuthAlgorithm"),  -- ScionSrv.authCheck: if spi = spiClient ∧ alg = algorithm, else .go false; pins C13_pin_PacketAuthSPIClient, _Algorithm
+  (6, "hostASKey, err := fetcher.FetchHostASKey(ctx, drkey.HostASMeta{ ProtoId: scion.DRKeyProtocolTS, Validity: rxt, SrcIA: scionLayer.DstIA, DstIA: scionLayer.SrcIA, SrcHost: dstAddr.String()})"),  -- ScionSrv.fetchKey (oracle fetchOk) = Drkey.Fetcher.fetchHostAS on Drkey.listenerMeta; pin C13_pin_call_sites; harness c13fk
+  (6, "if err != nil"),  -- ScionSrv.authCheck: | .error => .go false (C13_no_key_served_unauthenticated); Drkey.listenerKey: | none => .noKey
+  (6, "else"),  -- ScionSrv.authCheck: | .ok; Drkey.listenerKey: | some k
+  (7, "hostHostKey, err := scion.DeriveHostHostKey(hostASKey, srcAddr.String())"),  -- Drkey.deriveHostHost in Drkey.listenerKey; ScionSrv.keyOf; pin C13_pin_call_sites (DeriveArgs); harness c13fk fk.derive
+  (7, "if err != nil"),  -- Drkey.listenerKey: match deriveHostHost .. | none (not in ScionSrv.authCheck; host strings from netip.Addr.String)
+  (8, "panic(err)"),  -- Drkey.listenerKey: .derivePanic (modelled, not executed at listener level, notes/C13)
+  (7, "authKey = hostHostKey.Key[:]"),  -- Drkey.listenerKey: .key hh.key
+  (7, "if authMockKey != nil"),  -- Drkey.listenerKey: if cfg.mock
+  (8, "authKey = authMockKey"),  -- Drkey.listenerKey: List.replicate 16 0 (row 24)
+  (7, "_, err = spao.ComputeAuthCMAC( spao.MACInput{ Key: authKey, Header: slayers.PacketAuthOption{EndToEndOption: authOpt}, ScionLayer: &scionLayer, PldType: slayers.L4UDP, Pld: buf[len(buf)-int(udpLayer.Length):]}, authBuf, authMAC)"),  -- ScionSrv.Pkt.mac: oracle, real spao MAC by harness c13 under the key of ScionSrv.keyOf (only correct udp.Length exercised)
+  (7, "if err != nil"),  -- ScionSrv.authCheck: match p.mac | none
+  (8, "continue"),  -- ScionSrv.authCheck: fixed: .drop "mac-error" (old: panic explicit:mac, F4e)
+  (7, "authenticated = subtle.ConstantTimeCompare(scion.PacketAuthOptMAC(authOpt), authMAC) != 0"),  -- ScionSrv.authCheck: d.drop metadataLen = m (ScionSrv.authMAC: bytes 12..28; harness c13 op auth.mac)
+  (7, "if !authenticated"),  -- ScionSrv.authCheck: else .drop "bad-mac" (Props C13_bad_mac_never_served)
+  (8, "continue"),  -- ScionSrv.authCheck: .drop "bad-mac"; ListenerTx.stepEv | .drop sk
+  (3, "var ntpreq ntp.Packet"),  -- pin C09_pin_requestStateInLoop (x_c09.go scionServerRequestStateInLoop): declared in the loop body, zero per datagram
+  (3, "err = ntp.DecodePacket(&ntpreq, udpLayer.Payload)"),  -- NtpPacket.decodePacket via ServerReply.shouldReplyPayload; verdict enters ScionSrv.Pkt.ntpOk (oracle)
+  (3, "if err != nil"),  -- ServerReply.shouldReplyPayload: match decodePacket payload | _ => false; ScionSrv.handleG: if !p.ntpOk
+  (4, "continue"),  -- ScionSrv.handleG: .drop "ntp"; ListenerTx.stepEv | .drop sk
+  (3, "ntsAuthenticated := false"),  -- ServerReply.shouldReplyPayload: ntsOk not consulted for a 48-byte payload; Provider.Use: no use
+  (3, "var ntsreq nts.Packet"),  -- ServerReply.loopIterN: freshNts = true (carried := []); pin C09_pin_requestStateInLoop
+  (3, "var serverCookie ntske.ServerCookie"),  -- pin C09_pin_requestStateInLoop: server cookie declared in the loop body
+  (3, "if len(udpLayer.Payload) > ntp.PacketLen"),  -- ServerReply.shouldReplyPayload: payload.length > packetLen; ServerReply.entersNts; branch = Nts.serverReplyG
+  (4, "err = nts.DecodePacket(&ntsreq, udpLayer.Payload)"),  -- Nts.serverReplyG: decodePacketG fixed b (appends Cookies: ServerReply.ntsBranch carried ++ ..); pin C11_pin_ntsBranch
+  (4, "if err != nil"),  -- Nts.serverReplyG: error of decodePacketG; ServerReply.NtsView.decodes = false
+  (5, "continue"),  -- ServerReply.shouldReplyPayload: ntsOk = false => no reply; ScionSrv.handleG .drop "ntp"
+  (4, "cookie, err := ntsreq.FirstCookie()"),  -- Nts.firstCookie (ServerReply.ntsBranch: head of carried ++ v.cookies)
+  (4, "if err != nil"),  -- Nts.firstCookie: | [] => .err .noCookies
+  (5, "continue"),  -- ServerReply.shouldReplyPayload: ntsOk = false; ScionSrv.handleG .drop "ntp"
+  (4, "var encryptedCookie ntske.EncryptedServerCookie"),  -- env: variable declaration
+  (4, "err = encryptedCookie.Decode(cookie)"),  -- Nts.serverReplyG: decodeTLV fixed cookieTypeKeyID cookieTypeNonce cookieTypeCiphertext cookie (= ecDecode)
+  (4, "if err != nil"),  -- Nts.serverReplyG: error of decodeTLV
+  (5, "continue"),  -- ServerReply.shouldReplyPayload: ntsOk = false; ScionSrv.handleG .drop "ntp"
+  (4, "key, ok := provider.Get(int(encryptedCookie.ID))"),  -- Nts.serverReplyG: match keys ec.num; Provider.useStep | .ntp: get s id t; pin C12_pin_keyUse_runSCIONServer (open@loop)
+  (4, "if !ok"),  -- Nts.serverReplyG: | none => .err .noKey; Provider.useStep: | none => no key opened, none sealed
+  (5, "continue"),  -- ServerReply.shouldReplyPayload: ntsOk = false; ScionSrv.handleG .drop "ntp"
+  (4, "serverCookie, err = encryptedCookie.Decrypt(key.Value)"),  -- Nts.serverReplyG: decryptCookieG fixed A ec key; Provider.Outcome.opened
+  (4, "if err != nil"),  -- Nts.serverReplyG: error of decryptCookieG; Provider.useStep: auth = false
+  (5, "continue"),  -- ServerReply.shouldReplyPayload: ntsOk = false; ScionSrv.handleG .drop "ntp"
+  (4, "err = nts.ProcessRequest(udpLayer.Payload, serverCookie.C2S, &ntsreq)"),  -- Nts.serverReplyG: processRequestG fixed A b sc.y d (C2S key = sc.y)
+  (4, "if err != nil"),  -- Nts.serverReplyG: error of processRequestG; Provider.useStep: auth = false
+  (5, "continue"),  -- ServerReply.shouldReplyPayload: ntsOk = false; ScionSrv.handleG .drop "ntp"
+  (4, "ntsAuthenticated = true"),  -- ServerReply.ntsBranch: true so far (ntsOk also needs one fresh cookie, row 234); Provider.useStep: auth = true
+  (3, "err = ntp.ValidateRequest(&ntpreq, udpLayer.SrcPort)"),  -- NtpPacket.validateRequest req.lvm (srcPort unused) via ServerReply.shouldReplyPayload, after the NTS branch
+  (3, "if err != nil"),  -- ServerReply.shouldReplyPayload: && validateRequest req.lvm; ScionSrv.Pkt.ntpOk
+  (4, "continue"),  -- ScionSrv.handleG: .drop "ntp"; ListenerTx.stepEv | .drop sk
+  (3, "clientID := scionLayer.SrcIA.String() + \",\" + srcAddr.String()"),  -- ClientId.clientIdScion (iaText, sep); pins C06_pin_clientIdScion_operands, _sep; harness c13 ops srv.ident, id.text
+  (3, "var txt0 time.Time"),  -- env: variable declaration (txt0 = Server.HR.txt)
+  (3, "var ntpresp ntp.Packet"),  -- env: variable declaration (ntpresp header = ServerReply.replyHeader)
+  (3, "handleRequest(clientID, &ntpreq, &rxt, &txt0, &ntpresp)"),  -- Server.handleRequestG true via ListenerTx.stepEv | .ntp: hr := handleRequest .. rxt0 now; pin C06_pin_clientID_passed
+  (3, "scionLayer.TrafficClass = dscp << 2"),  -- ScionSrv.ntpReply: tc := tcOfDscp cfg.dscp (dscp * 4 % 256)
+  (3, "scionLayer.DstIA, scionLayer.SrcIA = scionLayer.SrcIA, scionLayer.DstIA"),  -- ScionSrv.mkReply: srcIA := p.dstIA, dstIA := p.srcIA
+  (3, "scionLayer.DstAddrType, scionLayer.SrcAddrType = scionLayer.SrcAddrType, scionLayer.DstAddrType"),  -- ScionSrv.mkReply: srcType := p.dstType, dstType := p.srcType
+  (3, "scionLayer.RawDstAddr, scionLayer.RawSrcAddr = scionLayer.RawSrcAddr, scionLayer.RawDstAddr"),  -- ScionSrv.mkReply: srcAddr := p.dstAddr, dstAddr := p.srcAddr
+  (3, "scionLayer.Path, err = scionLayer.Path.Reverse()"),  -- ScionSrv.Pkt.rev: oracle Path.Reverse()
+  (3, "if err != nil"),  -- ScionSrv.handleG (udp): match p.rev | none => if fixed then .drop "reverse" (old: panic, F4c)
+  (4, "continue"),  -- UNMODELLED: drop AFTER handleRequest: store already holds (rx, txt0) for clientID, no reply sent, updateTXTimestamp skipped
+  (3, "scionLayer.PathType = scionLayer.Path.Type()"),  -- ScionSrv.mkReply: pathType := rt (fixed)
+  (3, "scionLayer.NextHdr = slayers.L4UDP"),  -- ScionSrv.ntpReply: l4 := .udp
+  (3, "udpLayer.DstPort, udpLayer.SrcPort = udpLayer.SrcPort, udpLayer.DstPort"),  -- ScionSrv.ntpReply: srcPort := p.dstPort, dstPort := p.srcPort (Props C13_reply_udp)
+  (3, "ntp.EncodePacket(&udpLayer.Payload, &ntpresp)"),  -- NtpPacket.encodePacket of ServerReply.replyHeader + Server.mkReply timestamps; RPayload.ntpResponse; hdr of serverReplyG
+  (3, "if ntsAuthenticated"),  -- Nts.serverReplyG: second half (after processRequestG); Provider.useStep: if auth
+  (4, "var cookies [][]byte"),  -- env: variable declaration
+  (4, "key := provider.Current()"),  -- Nts.serverReplyG: (curId, curKey); Provider.useStep | .ntp: current P s c1 c2; pin C12_pin_keyUse_runSCIONServer
+  (4, "addedCookie := false"),  -- Nts.serverReplyG: fresh.isEmpty (negated)
+  (4, "for range len(ntsreq.Cookies) + len(ntsreq.CookiePlaceholders)"),  -- Nts.freshCookies: n = cs.length + d.nph (cookies after ProcessRequest + placeholders); pin C11_pin_ntsBranch
+  (5, "encryptedCookie, err := serverCookie.EncryptWithNonce(key.Value, key.ID)"),  -- Nts.freshCookies: encryptCookie A sc curKey curId nonce (nonce = draw16 of crypto/rand)
+  (5, "if err != nil"),  -- Nts.freshCookies: match encryptCookie | _ =>
+  (6, "continue"),  -- Nts.freshCookies: | _ => (cs, r'') - failed encryption skipped
+  (5, "cookie := encryptedCookie.Encode()"),  -- Nts.freshCookies: ecEncode ec
+  (5, "cookies = append(cookies, cookie)"),  -- Nts.freshCookies: ecEncode ec :: cs
+  (5, "addedCookie = true"),  -- Nts.serverReplyG: fresh non-empty
+  (4, "if !addedCookie"),  -- Nts.serverReplyG: if fresh.isEmpty then .err .noCookies; ServerReply ntsOk includes 'one fresh cookie'
+  (5, "continue"),  -- UNMODELLED: drop AFTER handleRequest (no fresh cookie sealed): store already mutated, updateTXTimestamp skipped
+  (4, "ntsresp := nts.NewResponsePacket(cookies, serverCookie.S2C, ntsreq.UniqueID.ID)"),  -- Nts.newResponsePacketG fixed fresh sc.x d.uid (S2C key = sc.x)
+  (4, "nts.EncodePacket(&udpLayer.Payload, &ntsresp)"),  -- Nts.encodePacketG fixed A hdr pkt nonce
+  (3, "payload := gopacket.Payload(udpLayer.Payload)"),  -- ScionSrv.RPayload.ntpResponse (payload of the reply)
+  (3, "err = buffer.Clear()"),  -- env: serialisation buffer reset
+  (3, "if err != nil"),  -- env: Clear always returns nil
+  (4, "panic(err)"),  -- env: unreachable, Clear cannot fail
+  (3, "err = payload.SerializeTo(buffer, options)"),  -- env: gopacket serialisation of the NTP/NTS response bytes
+  (3, "if err != nil"),  -- env: Payload.SerializeTo cannot fail
+  (4, "panic(err)"),  -- env: unreachable, see row 243
+  (3, "buffer.PushLayer(payload.LayerType())"),  -- env: gopacket layer bookkeeping
+  (3, "err = udpLayer.SerializeTo(buffer, options)"),  -- env: slayers serialisation of the UDP header (ports = ScionSrv.ntpReply), length and checksum by the library
+  (3, "if err != nil"),  -- env: tests the serialiser's error; consequence see row 248
+  (4, "panic(err)"),  -- UNMODELLED: panic(err) when UDP.SerializeTo fails
+  (3, "buffer.PushLayer(udpLayer.LayerType())"),  -- env: gopacket layer bookkeeping
+  (3, "if authenticated"),  -- ScionSrv.ntpReply: auth := if authenticated then p.auth.map replyAuthMeta else none (Props C13_reply_auth_iff)
+  (4, "scion.PreparePacketAuthOpt(authOpt, scion.PacketAuthSPIServer, scion.PacketAuthAlgorithm)"),  -- ScionSrv.authPrepare d spiServer algorithm (replyAuthMeta); harness c13 op auth.prepare; pin C13_pin_PacketAuthSPIServer
+  (4, "_, err = spao.ComputeAuthCMAC( spao.MACInput{ Key: authKey, Header: slayers.PacketAuthOption{EndToEndOption: authOpt}, ScionLayer: &scionLayer, PldType: scionLayer.NextHdr, Pld: buffer.Bytes()}, authBuf, scion.PacketAuthOptMAC(authOpt))"),  -- ScionSrv.Reply.auth: reply MAC is an oracle (same key: keyOf); verified by harness c13 (C13:reply-auth)
+  (4, "if err != nil"),  -- env: tests the MAC computation's error; consequence see row 254
+  (5, "panic(err)"),  -- UNMODELLED: panic(err) when spao.ComputeAuthCMAC fails on the reply
+  (4, "e2eExtn := slayers.EndToEndExtn{}"),  -- ScionSrv.ntpReply: auth = some .. - the reply gets a fresh E2E extension (received options are not echoed)
+  (4, "e2eExtn.NextHdr = scionLayer.NextHdr"),  -- ScionSrv.ntpReply: l4 := .udp follows the extension
+  (4, "e2eExtn.Options = []*slayers.EndToEndOption{authOpt}"),  -- ScionSrv.Reply.auth: the extension holds exactly the authenticator option
+  (4, "err = e2eExtn.SerializeTo(buffer, options)"),  -- env: slayers serialisation of the extension
+  (4, "if err != nil"),  -- env: tests the serialiser's error; consequence see row 260
+  (5, "panic(err)"),  -- UNMODELLED: panic(err) when EndToEndExtn.SerializeTo fails
+  (4, "buffer.PushLayer(e2eExtn.LayerType())"),  -- env: gopacket layer bookkeeping
+  (4, "scionLayer.NextHdr = slayers.End2EndClass"),  -- ScionSrv.ntpReply: auth = some .. (E2E extension between SCION header and UDP)
+  (3, "err = scionLayer.SerializeTo(buffer, options)"),  -- env: slayers serialisation of the SCION header (fields = ScionSrv.Reply via mkReply/ntpReply; compared by harness c13)
+  (3, "if err != nil"),  -- env: tests the serialiser's error; consequence see row 265
+  (4, "panic(err)"),  -- UNMODELLED: panic(err) when SCION.SerializeTo fails
+  (3, "buffer.PushLayer(scionLayer.LayerType())"),  -- env: gopacket layer bookkeeping
+  (3, "n, err = conn.WriteToUDPAddrPort(buffer.Bytes(), lastHop)"),  -- ListenerTx.LSock.send in sendRead (stepEv | .ntp); ScionSrv.mkReply: nextHop := p.lastHop; pin C06_pin_txPostSend site 3
+  (3, "if err != nil || n != len(buffer.Bytes())"),  -- ListenerTx: no Ev for a failed write (stepEv | .ntp always sends); assumed not counted by the kernel (notes/C06Tx)
+  (4, "continue"),  -- UNMODELLED: failed write AFTER handleRequest: continue skips txid bookkeeping and updateTXTimestamp, store holds (rx, txt0)
+  (3, "txt1, id, err := udp.ReadTXTimestamp(conn)"),  -- ListenerTx.reads: first ReadTXTimestamp (readTX); pin C06_pin_txPostSend srcPostSendNtp
+  (3, "for err == nil && int32(id-txid) < 0"),  -- ListenerTx.reads: fixed && s.id < txid
+  (4, "txt1, id, err = udp.ReadTXTimestamp(conn)"),  -- ListenerTx.reads: recursive call (txt1 of the last read is kept)
+  (3, "if err != nil"),  -- ListenerTx.decide3: r.err ≠ .none
+  (4, "txt1 = txt0"),  -- ListenerTx.decide3: (txt0, ..) - fallback to the pre-send reading (Props C03_tx_fallback_is_presend_reading)
+  (4, "txid++"),  -- ListenerTx.decide3: txid + 1 (fixed, F20)
+  (3, "else if id != txid"),  -- ListenerTx.decide3: else if r.id ≠ txid
+  (4, "txt1 = txt0"),  -- ListenerTx.decide3: (txt0, r.id + 1)
+  (4, "txid = id + 1"),  -- ListenerTx.decide3: r.id + 1
+  (3, "else"),  -- ListenerTx.decide3: else (r.t, ..) own kernel stamp
+  (4, "txid++"),  -- ListenerTx.decide3: txid + 1
+  (3, "updateTXTimestamp(clientID, rxt, &txt1)")  -- Server.updateTX via ListenerTx.stepEv | .ntp: updateTX hr.st cl hr.rxt p.txt1; pins C06_pin_clientID_passed, _txPostSend
   ]
 
 end ScionTime.Model.Skel
